@@ -55,24 +55,28 @@ var extraProps = map[string][]string{
 	"CODECSYM":             {"C14"},
 	// the Root is the handle of a captured version: its Link is the name the flush returned, held by the Root alone
 	// (C02: a kept Root never changes; C07: a published version is announced by name; C08: the name is the hash of what was written)
-	"ROOTFIELDS":  {"C04", "C02", "C07", "C08", "C15"},
-	"KEYOPAQUE":   {"C09", "C04"}, // keys ordered natively in one place and by the configured comparator elsewhere end up out of order in persisted nodes
-	"ROOTEXACT":   {"C01"},        // a legal stored node that is refused makes every operation on the reloaded tree fail
-	"ROOTSWAP":    {"C15"},        // a persisted tree whose root stays an in-memory node never compares equal by name: the diff against its own version reads nodes
-	"ROOTDIRTY":   {"C04"},        // a name or a stale child installed as root leaves a height its contents do not justify
-	"LINKNAMES":   {"C11"},        // a published node that still points at an in-memory child shares that child with every tree that loads it
-	"EMITGRAMMAR": {"C08"},        // equal bytes only for equal contents: each element is emitted from its own encoding
+	"ROOTFIELDS":         {"C04", "C02", "C07", "C08", "C15"},
+	"KEYOPAQUE":          {"C09", "C04"}, // keys ordered natively in one place and by the configured comparator elsewhere end up out of order in persisted nodes
+	"ROOTEXACT":          {"C01"},        // a legal stored node that is refused makes every operation on the reloaded tree fail
+	"FORMATCONST_CONSTS": {"C05"},        // a default built over the caller's nil marshaler cannot persist or reload struct keys
+	"SIGNONLY":           {"C15"},        // a comparator result tested against ±1 sends a removed key down the addition branch: the diff expands everything after it
+	"CTOR":               {"C19"},        // the validator runs with the comparator and layer function LoadMast installed
+	"NILLINKDECODE":      {"C01"},        // an absent child decoded as the empty name makes every operation on the reloaded tree fail
+	"ROOTSWAP":           {"C15"},        // a persisted tree whose root stays an in-memory node never compares equal by name: the diff against its own version reads nodes
+	"ROOTDIRTY":          {"C04"},        // a name or a stale child installed as root leaves a height its contents do not justify
+	"LINKNAMES":          {"C11"},        // a published node that still points at an in-memory child shares that child with every tree that loads it
+	"EMITGRAMMAR":        {"C08"},        // equal bytes only for equal contents: each element is emitted from its own encoding
 	// copy-on-write is what makes a reloaded tree independent of its source (C05, "with or without a node cache"),
 	// what keeps "same root name ⇒ same contents" true in memory (C08), what makes a failed operation harmless
 	// before the root swap (C12), and what C01 quantifies over ("cache on/off")
 	"OWN":        {"C01", "C04", "C05", "C08", "C09", "C12", "C13"},
 	"SHAREDPUB":  {"C01", "C04", "C05", "C08", "C09", "C12", "C13"},
-	"FLAGS":      {"C01", "C04", "C05", "C08", "C09", "C12"},
+	"FLAGS":      {"C01", "C04", "C05", "C08", "C09", "C12", "C14"}, // a decoded node that forgets its stored name is written again under a new one
 	"ALIAS":      {"C01", "C04", "C05", "C08", "C09", "C12", "C13", "C11"},
-	"COMMIT":     {"C09"}, // a failed operation that leaves a half-applied change breaks the shape the next persist records
-	"NOEMPTY":    {"C13"}, // an entry-less node that gets linked is written: garbage
-	"CACHEAFTER": {"C11"}, // one tree's unfinished write must not make another tree skip its own
-	"ATOMICFILE": {"C18"}, // a successful file Store has written the bytes
+	"COMMIT":     {"C09"},               // a failed operation that leaves a half-applied change breaks the shape the next persist records
+	"NOEMPTY":    {"C13"},               // an entry-less node that gets linked is written: garbage
+	"CACHEAFTER": {"C11", "C02", "C19"}, // one tree's unfinished write must not make another tree skip its own; a node cached before it is stored is served to LoadMast as if the version existed
+	"ATOMICFILE": {"C18"},               // a successful file Store has written the bytes
 }
 
 // dropProps removes a property from a rule's owners where a violation of the
